@@ -53,11 +53,11 @@ func c03Gen(rt *rapid.T) rigScenario {
 			sc.Ops = append(sc.Ops, rigOp{K: "raceclose", Side: side, S: j})
 		}
 	}
-	if rapid.IntRange(0, 39).Draw(rt, "hugebacklog") == 0 {
+	if rapid.IntRange(0, 199).Draw(rt, "hugebacklog") == 0 {
 		// megabytes arrive and stay unread, then the receiving side closes the stream without reading first
 		// ("bytes that had already arrived locally remain readable after a local Close")
 		side := rapid.IntRange(0, 1).Draw(rt, "hugeside")
-		mb := rapid.SampledFrom([]int{1, 5, 5}).Draw(rt, "hugemb")
+		mb := rapid.SampledFrom([]int{5, 5, 1}).Draw(rt, "hugemb")
 		for k := 0; k < mb*4; k++ {
 			sc.Ops = append(sc.Ops, rigOp{K: "write", Side: side, S: 0, N: 16 * vMaxUnit})
 			for c := 0; c < sc.Cfg.NumConn; c++ {
